@@ -253,12 +253,69 @@ func soleDefinition(info *types.Info, fd *ast.FuncDecl, v *types.Var) ast.Expr {
 	return nil
 }
 
+// fieldAliasDef: locals defined once as <x>.<func-typed field> (filled by registerFieldAliases).
+var fieldAliasDef = map[*types.Var]*ast.SelectorExpr{}
+
+// registerFieldAliases records, for the locals of fd, those whose only
+// definition is a selector of a func-typed struct field.
+func registerFieldAliases(info *types.Info, fd *ast.FuncDecl) {
+	ast.Inspect(fd.Body, func(n ast.Node) bool {
+		as, ok := n.(*ast.AssignStmt)
+		if !ok || as.Tok != token.DEFINE || len(as.Lhs) != len(as.Rhs) {
+			return true
+		}
+		for i, l := range as.Lhs {
+			id, ok := l.(*ast.Ident)
+			if !ok {
+				continue
+			}
+			v, ok := info.Defs[id].(*types.Var)
+			if !ok {
+				continue
+			}
+			se, ok := ast.Unparen(as.Rhs[i]).(*ast.SelectorExpr)
+			if !ok {
+				continue
+			}
+			if fv, ok := info.ObjectOf(se.Sel).(*types.Var); ok && fv.IsField() {
+				if _, isSig := fv.Type().Underlying().(*types.Signature); isSig && soleDefinition(info, fd, v) != nil {
+					fieldAliasDef[v] = se
+				}
+			}
+		}
+		return true
+	})
+}
+
+// aliasKnownNil: some local alias of recv.<field> is known to be nil on the path.
+func aliasKnownNil(f *Facts, recv types.Object, field string) bool {
+	for v, se := range fieldAliasDef {
+		if se.Sel.Name == field && f.Obj(v) == -1 {
+			if id, ok := ast.Unparen(se.X).(*ast.Ident); ok && recv != nil && id.Name == recv.Name() {
+				return true
+			}
+		}
+	}
+	return false
+}
+
 // fieldCall recognises a call through a func-typed field of the receiver
 // (recv.checkFn(...), recv.postChangeHook(...)) and returns the field name.
 func fieldCall(info *types.Info, call *ast.CallExpr) (string, ast.Expr) {
 	se, ok := ast.Unparen(call.Fun).(*ast.SelectorExpr)
 	if !ok {
-		return "", nil
+		// a local holding the field's value: h := recv.hook; h(...)
+		if id, isID := ast.Unparen(call.Fun).(*ast.Ident); isID {
+			if v, isV := info.ObjectOf(id).(*types.Var); isV && !v.IsField() {
+				if def := fieldAliasDef[v]; def != nil {
+					se = def
+					ok = true
+				}
+			}
+		}
+		if !ok {
+			return "", nil
+		}
 	}
 	fv, ok := info.ObjectOf(se.Sel).(*types.Var)
 	if !ok || !fv.IsField() {
@@ -324,6 +381,7 @@ func assignedFromCall(info *types.Info, n ast.Node, call *ast.CallExpr) []types.
 // familyEvents builds the event extractor shared by Add and Delete analysis.
 func familyEvents(c *Ctx, fi *FuncInfo, helpers map[*types.Func]*helperInfo, eObj types.Object) func(n ast.Node) []Event {
 	info := fi.Pkg.TypesInfo
+	registerFieldAliases(info, fi.Decl)
 	return func(n ast.Node) []Event {
 		var out []Event
 		// uses of e that are not nil comparisons
@@ -558,7 +616,7 @@ func analyseAdd(c *Ctx, k *Kind, helpers map[*types.Func]*helperInfo, sel famSel
 				vGate.touch("resolvability gate")
 				chk := lastIdxBefore(p, "check", ii)
 				allF := factsAfter(info, p, -1, ii)
-				nilGate := recv != nil && allF.Expr(recv.Name()+".checkFn == nil") == +1
+				nilGate := recv != nil && (allF.Expr(recv.Name()+".checkFn == nil") == +1 || aliasKnownNil(allF, recv, "checkFn"))
 				switch {
 				case chk < 0 && nilGate:
 					// checking disabled for this holder: allowed (DisableRIBCheckFn)
@@ -599,7 +657,7 @@ func analyseAdd(c *Ctx, k *Kind, helpers map[*types.Func]*helperInfo, sel famSel
 			if val && ii >= 0 {
 				vHook.touch("notify after install")
 				all := factsAfter(info, p, ii, len(p.Events))
-				hookNil := recv != nil && all.Expr(recv.Name()+".postChangeHook == nil") == +1
+				hookNil := recv != nil && (all.Expr(recv.Name()+".postChangeHook == nil") == +1 || aliasKnownNil(all, recv, "postChangeHook"))
 				hi := -1
 				for j := ii + 1; j < len(p.Events); j++ {
 					if p.Events[j].Kind == "hook" {
@@ -766,7 +824,7 @@ func analyseDelete(c *Ctx, k *Kind, helpers map[*types.Func]*helperInfo, sel fam
 			vGate.touch("deletability gate")
 			chk := lastIdxBefore(p, "check", ri)
 			allF := factsAfter(info, p, -1, ri)
-			nilGate := recv != nil && allF.Expr(recv.Name()+".checkFn == nil") == +1
+			nilGate := recv != nil && (allF.Expr(recv.Name()+".checkFn == nil") == +1 || aliasKnownNil(allF, recv, "checkFn"))
 			switch {
 			case chk < 0 && nilGate:
 			case chk < 0:
@@ -803,7 +861,7 @@ func analyseDelete(c *Ctx, k *Kind, helpers map[*types.Func]*helperInfo, sel fam
 				if ri >= 0 {
 					vHook.touch("notify after removal")
 					all := factsAfter(info, p, ri, len(p.Events))
-					hookNil := recv != nil && all.Expr(recv.Name()+".postChangeHook == nil") == +1
+					hookNil := recv != nil && (all.Expr(recv.Name()+".postChangeHook == nil") == +1 || aliasKnownNil(all, recv, "postChangeHook"))
 					hi := -1
 					for j := ri + 1; j < len(p.Events); j++ {
 						if p.Events[j].Kind == "hook" {
@@ -1008,7 +1066,7 @@ func ruleLocklessHooks(c *Ctx, ks []*Kind) {
 			}
 			dd := p.Events[di].Data.(*addEvData)
 			all := factsAfter(info, p, di, len(p.Events))
-			hookNil := recv != nil && all.Expr(recv.Name()+".postChangeHook == nil") == +1
+			hookNil := recv != nil && (all.Expr(recv.Name()+".postChangeHook == nil") == +1 || aliasKnownNil(all, recv, "postChangeHook"))
 			hi := -1
 			for j := di + 1; j < len(p.Events); j++ {
 				if p.Events[j].Kind == "hook" {
